@@ -41,6 +41,7 @@ type Engine struct {
 	fnIDs    map[*ssa.Function]int
 	axiomsLoaded bool
 	refTags  map[string]int
+	srcCache map[string][]string
 }
 
 func relName(fn *ssa.Function) string {
@@ -268,6 +269,7 @@ func (e *Engine) preludeFull() string {
 (declare-fun ssub (Str Int Int) Str)
 (declare-fun slt (Str Str) Bool)
 (declare-fun qmarks (Str) Int)
+(declare-fun nlp (Str Int) Int)
 (declare-fun box_Str (Str) Int)
 (declare-fun unbox_Str (Int) Str)
 (declare-fun box_Int (Int) Int)
@@ -279,6 +281,8 @@ func (e *Engine) preludeFull() string {
 (assert (forall ((s Bool)) (! (= (unbox_Bool (box_Bool s)) s) :pattern ((box_Bool s)))))
 (assert (= (slen str_empty) 0))
 (assert (= (qmarks str_empty) 0))
+(assert (forall ((s Str)) (! (= (nlp s 0) 0) :pattern ((nlp s 0)))))
+(assert (forall ((s Str) (j Int) (k Int)) (! (=> (and (<= 0 j) (<= j k)) (<= (nlp s j) (nlp s k))) :pattern ((nlp s j) (nlp s k)))))
 (assert (forall ((s Str)) (! (>= (qmarks s) 0) :pattern ((qmarks s)))))
 (assert (forall ((a Str) (b Str)) (! (= (qmarks (scat a b)) (+ (qmarks a) (qmarks b))) :pattern ((scat a b)))))
 (assert (forall ((s Str)) (! (>= (slen s) 0) :pattern ((slen s)))))
@@ -468,4 +472,23 @@ func (e *Engine) resolveFuncTypeKeys() error {
 		}
 	}
 	return nil
+}
+
+func (e *Engine) sourceLine(p token.Pos) string {
+	pos := e.fset.Position(p)
+	if e.srcCache == nil {
+		e.srcCache = map[string][]string{}
+	}
+	ls, ok := e.srcCache[pos.Filename]
+	if !ok {
+		b, err := os.ReadFile(pos.Filename)
+		if err == nil {
+			ls = strings.Split(string(b), "\n")
+		}
+		e.srcCache[pos.Filename] = ls
+	}
+	if pos.Line >= 1 && pos.Line <= len(ls) {
+		return ls[pos.Line-1]
+	}
+	return ""
 }
